@@ -229,6 +229,14 @@ func ruleC16(c *Ctx) {
 						stV, whyV = broken, fmt.Sprintf("isoschizomers are split on %q; the format separates them with \",\"", sep)
 					}
 				}
+			} else if (val.isCall("strings.Fields") || val.isCall("strings.FieldsFunc")) && len(val.Args) >= 1 {
+				// Fields / FieldsFunc never yield an empty element: an empty <2> line gives no element where
+				// Split gives one empty name, and "A,,B" loses its middle entry
+				if st0, _ := payloadState(val.Args[0], tag); st0 == holds {
+					stV, whyV = broken, "isoschizomers are cut with "+val.Name+", which drops empty elements: a record with an empty <2> line gets an empty list instead of the one empty name the listing states, and empty entries between commas disappear"
+				} else {
+					stV, whyV = unknown, "isoschizomers are "+short(val.String())
+				}
 			} else {
 				stV, whyV = unknown, "isoschizomers are "+short(val.String())
 			}
